@@ -50,7 +50,7 @@ Proof.
   - (* map *)
     cbn. f_equal.
     induction H as [|[k x] r Hx Hr IH]; [reflexivity|]. cbn [snd] in Hx.
-    replace (match c with Msgpack | _ => zero_val ty0 end) with (zero_val ty0) in * by (destruct c; reflexivity).
+    match goal with |- context [dec_onto ?p ty0 x] => replace p with (zero_val ty0) by (destruct c, x; reflexivity) end.
     rewrite Hx. now rewrite IH.
   - (* struct *)
     cbn. destruct (fields_of sch name) as [fs|]; [|reflexivity]. f_equal.
